@@ -12,9 +12,10 @@
 //	set <k> <v> | del <k> | send <b58addr> <amount> | event <name> | fail | sysfail
 //	| fee <n> | ret <string> | nop
 //
-// A failing operation makes the whole call fail with a runtime error after rolling
-// the contract storage back to where it was at call entry (what the real executor
-// does with its savepoint); `send` transfers made before the failure are undone.
+// A failing operation makes the whole call fail with a runtime error.  As in the real
+// executor, contract storage written before the failure is NOT rolled back by the VM
+// (its savepoints only cover SQL); `send` transfers made before the failure are undone
+// (the real VM's recovery points restore balances of nested sends).
 package contract
 
 import (
@@ -119,9 +120,10 @@ func runOps(ctx *vmContext, cs *statedb.ContractState, contractAddress []byte, p
 		events []*types.Event
 		sends  []stubSend
 	)
-	rev := cs.Snapshot()
+	// Like the real executor (vm.go Call/Create): a failing top-level call does NOT roll the contract storage
+	// back itself - rollbackToSavepoint only concerns the SQL databases.  Storage writes made before the failure
+	// stay in the ContractState handle; whether they survive is up to executeTx / the block state.
 	fail := func(err error) (string, []*types.Event, error) {
-		_ = cs.Rollback(rev)
 		for i := len(sends) - 1; i >= 0; i-- {
 			sends[i].to.SubBalance(sends[i].amt)
 			ctx.receiver.AddBalance(sends[i].amt)
